@@ -599,8 +599,12 @@ func (nw *Network) FastForward(n *SimNode) error {
 	prevRestores := n.App.Restores
 	ownLast := n.Node.GetLastBlockIndex()
 	nw.ffOffers = nil
+	nw.ffJunkOffered = false
 	err := n.Node.VerifFastForward()
 	nw.Res.count("step_fastforward", 1)
+	if err == nil && nw.ffJunkOffered {
+		nw.Res.count("ff_responses_with_added_signature_entries_adopted", 1)
+	}
 	if err == nil {
 		n.ResetEpochs++
 		if n.AnchorAtReset == nil {
